@@ -428,7 +428,7 @@ func cmdCheck(argv []string) int {
 	sort.Strings(tb)
 	tb = append(tb,
 		"model: maps are heap objects (typed heaps), slices are immutable sequence values, strings are byte strings (SMT String, chars 0..255)",
-		"model: map range yields an arbitrary sequence of present entries (order, multiplicity and exhaustiveness not assumed)",
+		"model: map range delivers the entries in an arbitrary order; while the key set is unchanged since the range started every entry is delivered exactly once (ghost count and visited set); nothing about order is assumed",
 		"engine: govc itself (VC generator over go/ssa NaiveForm) is unverified; guarded by the must-fail selftest corpus",
 	)
 	var samples []map[string]string
